@@ -114,10 +114,10 @@ PROPS = {
     'C07': {
         'proofs': ['Ww.Proofs.C07', 'Ww.Proofs.GenTie.C07'],
         'gen_sections': MANAGER_SECTIONS,
-        'drivers': [{'name': 'sched'}, {'name': 'fault', 'timeout': 1500}],
+        'drivers': [{'name': 'sched'}, {'name': 'fault', 'timeout': 1500}, {'name': 'hist'}],
         'reasons': ['C07.'],
-        'class_fields': {'sched': ['store', 'procs', 'crash', 'trace', 'statuses', 'exists'], 'fault': ['handler', 'prestate', 'fpos', 'fkind', 'fcount', 'status', 'contacted'], 'faultdry': ['handler', 'prestate']},
-        'nontrivial': {'sched': lambda f: ',' in f.get('schedule', ''), 'fault': lambda f: f.get('fkind', '').startswith('idp'), 'faultdry': lambda f: False},
+        'class_fields': _merge(HIST_CLASS, {'sched': ['store', 'procs', 'crash', 'trace', 'statuses', 'exists'], 'fault': ['handler', 'prestate', 'fpos', 'fkind', 'fcount', 'status', 'contacted'], 'faultdry': ['handler', 'prestate']}),
+        'nontrivial': _merge(HIST_NT, {'sched': lambda f: ',' in f.get('schedule', ''), 'fault': lambda f: f.get('fkind', '').startswith('idp'), 'faultdry': lambda f: False}),
         'rule': SCHED_RULE + " fault driver (as C11): provider faults at the grant, incl. an answer LOST in transit after the provider processed the grant - the number of times the refresh token is sent is counted.",
         'level_text': "Proof: inductive invariant (7 fields) over the small-step model for any number of processes and any schedule: mutual exclusion between lock and unlock; under the lock the re-read token is the provider's current one; "
                       "hence every presentation is a grant, the presented generations are strictly increasing - no refresh token is presented twice - and the stored pair is the provider's current pair whenever nobody is in the critical section. "
